@@ -392,8 +392,8 @@ impl FdtEngine {
         let (al, _, _, nb) = hk::block_partitioning(o.b as u64, len, o.e as u64);
         match o.enc {
             5 | 129 => o.p != 0 && al + o.p as u64 <= 256,
-            6 => o.scheme.is_some() && nb <= 255,
-            1 => o.scheme.is_some() && nb <= 65535,
+            6 => al <= 56403 && o.scheme.is_some() && nb <= 255,
+            1 => al <= 8192 && o.scheme.is_some() && nb <= 65535,
             _ => true,
         }
     }
